@@ -42,6 +42,9 @@ type Script struct {
 	// DeadConn: once the request has been written the connection is dead the way a locally closed socket is: the
 	// deadline setters fail, and so does every Read, all with the connection's injected error.
 	DeadConn bool `json:"dead_conn,omitempty"`
+	// NoReadDeadline: the connection does not support read deadlines (an adapter that puts a stream without them behind
+	// net.Conn): SetReadDeadline fails with os.ErrNoDeadline, reads block until bytes are there.
+	NoReadDeadline bool `json:"no_read_deadline,omitempty"`
 	// WriteSleepMs: Write takes this long (a serial line at a low baud rate drains a long request slowly).
 	WriteSleepMs int `json:"write_sleep_ms,omitempty"`
 }
@@ -366,6 +369,10 @@ func (c *Conn) SetReadDeadline(t time.Time) error {
 	if c.Net && c.closed {
 		c.log("rdeadline", 0, errUseOfClosed, nil)
 		return errUseOfClosed
+	}
+	if c.S.NoReadDeadline {
+		c.log("rdeadline", 0, os.ErrNoDeadline, nil)
+		return os.ErrNoDeadline
 	}
 	c.rdl = t
 	c.log("rdeadline", 0, nil, nil)
